@@ -51,7 +51,8 @@ package testdrv
 //@ requires f.Driver != nil
 //@ requires listening(f.Driver) ==> readerInv(f.Driver.rd)
 //@ requires listening(f.Driver) ==> (int32(tdiff(f.Driver.now, f.Driver.last) / 1000000) >= 0 && f.Driver.rd.ts_ms + int32(tdiff(f.Driver.now, f.Driver.last) / 1000000) >= f.Driver.rd.ts_ms)
-//@ modifies *f.Driver, *f.Driver.rd, cb_log
+//@ requires listening(f.Driver) ==> (f.Driver.rd.sysexBf == nil || ref(bt) != ref(f.Driver.rd.sysexBf))
+//@ modifies *f.Driver, *f.Driver.rd, f.Driver.rd.sysexBf[:], cb_log
 //@ ensures [P:C17] !f.isOpen ==> (result == drivers.ErrPortClosed && cb_n == old(cb_n))
 //@ ensures [P:C17] f.isOpen && !old(listening(f.Driver)) ==> (result == nil && cb_n == old(cb_n))
 //@ ensures [P:C17] f.isOpen && old(listening(f.Driver)) ==> result == nil
